@@ -163,10 +163,10 @@ pub fn world_defs() -> Vec<WorldDef> {
 }
 
 /// Configuration sweep: port layouts x every subset of {per-port acceptable-master lists, path
-/// trace, unequal intervals, non-zero domain/sdoId, a second better master} x {fresh, slave of A},
+/// trace, unequal intervals, non-zero domain/sdoId, a second better master, peers that are boundary clocks with every attribute distinct} x {fresh, slave of A},
 /// explored to a shallow depth.  `reduced` keeps the single tokens and the full set only.
 pub fn sweep_defs(reduced: bool) -> Vec<WorldDef> {
-    const TOKENS: [&str; 5] = ["+aml", "+pt", "+iv", "+sdo", "+b100"];
+    const TOKENS: [&str; 6] = ["+aml", "+pt", "+iv", "+sdo", "+b100", "+bcpeers"];
     let mut out = vec![];
     let layouts: [(&str, Vec<(bool, bool)>); 4] = [
         ("sweep-1p-e2e", vec![(false, false)]),
@@ -175,8 +175,8 @@ pub fn sweep_defs(reduced: bool) -> Vec<WorldDef> {
         ("sweep-2p-p2p+mo", vec![(true, false), (false, true)]),
     ];
     for (lname, ports) in layouts.iter() {
-        for mask in 0u32..32 {
-            if reduced && !(mask.count_ones() <= 1 || mask == 31) {
+        for mask in 0u32..64 {
+            if reduced && !(mask.count_ones() <= 1 || mask == 63) {
                 continue;
             }
             for slave_only in [false, true] {
@@ -252,6 +252,19 @@ pub fn build<'m, M: Monitor>(property: &'static str, monitor: &'m M, defs: Vec<W
             }
             if d.name.contains("+b100") {
                 cfg.peers[1].priority1 = 100;
+            }
+            if d.name.contains("+bcpeers") {
+                // the peers are boundary clocks: grandmaster, sender and every attribute distinct
+                for (i, q) in cfg.peers.iter_mut().take(2).enumerate() {
+                    q.gm_identity = [0xcc, 0, 0, 0, 0, 0, 0, 0x10 + i as u8];
+                    q.steps_removed = 2 + i as u16;
+                    q.priority2 = 77 + i as u8;
+                    q.utc_offset = 35 - i as i16;
+                    q.time_source = 0x20;
+                    q.accuracy = 0x21 + i as u8;
+                    q.variance = 0x4e5d;
+                    q.class = 6 + (i as u8) * 7;
+                }
             }
             let mut macros = vec![];
             if d.name.contains("shared-segment") {
